@@ -389,9 +389,9 @@ def r4(ctx):
             if isinstance(e, ast.Attribute) and e.attr == "headers_sent":
                 return +1
             if isinstance(e, ast.Name) and e.id == resp:
-                return -1              # no response object yet: nothing was sent
+                return +1              # its false edge: no response object yet, nothing was sent
             return None
-        p, hits = guard_check(f, rer, sent_recog)
+        p, hits = guard_check(f, rer, sent_recog, follow_exc=True)
         ctx.check("C02.R4", p is None, key(f, "error-reply-only-before-head"), site(f, rer[0]),
                   "an application error is passed on to handle_error() (which writes a complete 500 response) without `%s.headers_sent` having been found false: "
                   "when the head is already on the wire the error page lands inside / behind the first response" % resp,
